@@ -29,10 +29,15 @@
     requires old(self).file.contents().len() >= 8
     // C05: acknowledged (Ok) => the header holds the new last-applied index and everything behind the header is untouched,
     // so the saved term / vote / membership stay exactly as they were
-    ensures r is Ok ==> final(self).last_applied_log == last_applied_log && final(self).raft_index == old(self).raft_index
+    ensures r is Ok ==> final(self).file.contents().len() >= 8,
+        // memory is updated first, whatever the file then does
+        final(self).last_applied_log == last_applied_log && final(self).raft_index == old(self).raft_index,
+        r is Ok ==> final(self).last_applied_log == last_applied_log && final(self).raft_index == old(self).raft_index
             && final(self).file.contents().take(8) == be64(last_applied_log)
             && final(self).file.contents().skip(8) == old(self).file.contents().skip(8),
         r is Ok && old(self).wf() ==> final(self).wf(),
+        // a save fails only when the file does
+        r is Err ==> old(self).file.io_faulty(), final(self).file.io_faulty() == old(self).file.io_faulty(),
 @@ RaftIndexInnerManager::write_last_applied_log entry
     broadcast use axiom_be64_len;
     let ghost c0 = self.file.contents();
@@ -51,10 +56,15 @@
     requires old(self).file.contents().len() >= 8, msg_of(index).pb_bytes().len() < 0x1_0000_0000
     // C05: acknowledged (Ok) => the file holds exactly the saved term / vote / membership / catalogue behind an untouched header
     // (the length prefix makes a shorter record after a longer one decode correctly)
-    ensures r is Ok ==> final(self).raft_index == index && final(self).last_applied_log == old(self).last_applied_log
+    ensures r is Ok ==> final(self).file.contents().len() >= 8,
+        // memory is updated first, whatever the file then does
+        final(self).raft_index == index && final(self).last_applied_log == old(self).last_applied_log,
+        r is Ok ==> final(self).raft_index == index && final(self).last_applied_log == old(self).last_applied_log
             && final(self).file.contents().take(8) == old(self).file.contents().take(8)
             && (forall|la: u64| old(self).file.contents().take(8) == be64(la) ==> #[trigger] holds_dto(final(self).file.contents(), la, index)),
         r is Ok && old(self).wf() ==> final(self).wf(),
+        // a save fails only when the file does
+        r is Err ==> old(self).file.io_faulty(), final(self).file.io_faulty() == old(self).file.io_faulty(),
 @@ RaftIndexInnerManager::write_index entry
     broadcast use axiom_be64_len;
     broadcast use axiom_dto_roundtrip;
@@ -115,13 +125,17 @@
             }
         }
     }
+@@ RaftIndexManager::write_hard_state t20_calls write_index
 @@ RaftIndexManager::write_hard_state spec
+    requires records_fit(), old(self).inner is Some ==> old(self).inner.unwrap().file.contents().len() >= 8
     // C05 frame: saving term and vote replaces exactly these two fields and hands exactly that record to the writer
     ensures old(self).inner is Some ==> r is Ok && final(self).inner is Some
             && final(self).inner.unwrap().raft_index == (RaftIndexDto { current_term: current_term, voted_for: voted_for, ..old(self).inner.unwrap().raft_index })
-            && final(self).last_handed@ == Some((final(self).inner.unwrap().raft_index, false)),
+            && saved(old(self).inner.unwrap(), final(self).inner.unwrap()),   // the file holds it (no I/O fault)
         old(self).inner is None ==> r is Err,
+@@ RaftIndexManager::write_member t20_calls write_index
 @@ RaftIndexManager::write_member spec
+    requires records_fit(), old(self).inner is Some ==> old(self).inner.unwrap().file.contents().len() >= 8
     ensures old(self).inner is Some ==> r is Ok && final(self).inner is Some && ({
             let o = old(self).inner.unwrap().raft_index;
             let n = final(self).inner.unwrap().raft_index;
@@ -131,36 +145,44 @@
             // a membership change never touches term, vote or the catalogue
             &&& n.current_term == o.current_term && n.voted_for == o.voted_for && n.logs == o.logs && n.snapshots == o.snapshots
             &&& n.current_log == o.current_log && n.last_snapshot == o.last_snapshot && n.last_snapshot_index == o.last_snapshot_index && n.last_snapshot_term == o.last_snapshot_term
-            &&& final(self).last_handed@ == Some((n, true))
+            &&& saved(old(self).inner.unwrap(), final(self).inner.unwrap())   // the file holds it (no I/O fault)
         }),
         old(self).inner is None ==> r is Err,
+@@ RaftIndexManager::write_node_addr t20_calls write_index
 @@ RaftIndexManager::write_node_addr spec
+    requires records_fit(), old(self).inner is Some ==> old(self).inner.unwrap().file.contents().len() >= 8
     ensures old(self).inner is Some ==> r is Ok && final(self).inner is Some
             && final(self).inner.unwrap().raft_index == (RaftIndexDto { node_addrs: node_addr, ..old(self).inner.unwrap().raft_index })
-            && final(self).last_handed@ == Some((final(self).inner.unwrap().raft_index, true)),
+            && saved(old(self).inner.unwrap(), final(self).inner.unwrap()),   // the file holds it (no I/O fault)
         old(self).inner is None ==> r is Err,
+@@ RaftIndexManager::add_node_addr t20_calls write_index
 @@ RaftIndexManager::add_node_addr spec
+    requires records_fit(), old(self).inner is Some ==> old(self).inner.unwrap().file.contents().len() >= 8
     ensures old(self).inner is Some ==> r is Ok && final(self).inner is Some && ({
             let o = old(self).inner.unwrap().raft_index;
             let n = final(self).inner.unwrap().raft_index;
             &&& n.node_addrs@ == o.node_addrs@.insert(id, node_addr)
             &&& n.current_term == o.current_term && n.voted_for == o.voted_for && n.member == o.member && n.member_after_consensus == o.member_after_consensus
             &&& n.logs == o.logs && n.snapshots == o.snapshots
-            &&& final(self).last_handed@ == Some((n, true))
+            &&& saved(old(self).inner.unwrap(), final(self).inner.unwrap())   // the file holds it (no I/O fault)
         }),
         old(self).inner is None ==> r is Err,
 @@ RaftIndexManager::add_node_addr entry
     broadcast use vstd::std_specs::hash::group_hash_axioms;
+@@ RaftIndexManager::write_logs t20_calls write_index
 @@ RaftIndexManager::write_logs spec
+    requires records_fit(), old(self).inner is Some ==> old(self).inner.unwrap().file.contents().len() >= 8
     // catalogue saves never clobber term / vote / membership
     ensures old(self).inner is Some ==> r is Ok && final(self).inner is Some
             && final(self).inner.unwrap().raft_index == (RaftIndexDto { logs: logs, ..old(self).inner.unwrap().raft_index })
-            && final(self).last_handed@ == Some((final(self).inner.unwrap().raft_index, false)),
+            && saved(old(self).inner.unwrap(), final(self).inner.unwrap()),   // the file holds it (no I/O fault)
         old(self).inner is None ==> r is Err,
+@@ RaftIndexManager::write_snapshots t20_calls write_index
 @@ RaftIndexManager::write_snapshots spec
+    requires records_fit(), old(self).inner is Some ==> old(self).inner.unwrap().file.contents().len() >= 8
     ensures old(self).inner is Some ==> r is Ok && final(self).inner is Some
             && final(self).inner.unwrap().raft_index == (RaftIndexDto { snapshots: snapshots, ..old(self).inner.unwrap().raft_index })
-            && final(self).last_handed@ == Some((final(self).inner.unwrap().raft_index, false)),
+            && saved(old(self).inner.unwrap(), final(self).inner.unwrap()),   // the file holds it (no I/O fault)
         old(self).inner is None ==> r is Err,
 @@ RaftIndexInnerManager::init after_call flush 1
     proof {
@@ -175,3 +197,63 @@
         assert(buf@.subrange(8, 8 + n) =~= pb_frame(index));
         assert(holds(c1, 0, index));
     }
+@@ RaftIndexManager::do_notify_membership external
+@@ RaftIndexManager::do_notify_membership skip_body
+@@ RaftIndexManager::write_index chain 1
+    env mut inner: Option<Box<RaftIndexInnerManager>>, index: RaftIndexDto, change_member: bool, last_applied_log: u64
+    returns (Option<Box<RaftIndexInnerManager>>, bool)
+@@ RaftIndexManager::write_index chain 1 spec
+    requires records_fit(), inner is Some ==> inner.unwrap().file.contents().len() >= 8
+    ensures r.1 == change_member, r.0 is Some == inner is Some,
+        inner is Some ==> written(*inner.unwrap(), *r.0.unwrap(), index),
+@@ RaftIndexManager::write_index spec
+    requires records_fit(), old(self).inner is Some ==> old(self).inner.unwrap().file.contents().len() >= 8
+    // C05 (actor level, A-WAIT): the record handed to the actor is the record RaftIndexInnerManager::write_index writes — before
+    // the actor takes its next message; without an I/O fault the file then holds exactly it behind the untouched header
+    ensures
+        old(self).inner is None ==> r is Err && final(self).inner is None,
+        old(self).inner is Some ==> r is Ok && final(self).inner is Some && written(*old(self).inner.unwrap(), *final(self).inner.unwrap(), index),
+@@ RaftIndexManager::write_last_applied_log chain 1
+    env mut inner: Option<Box<RaftIndexInnerManager>>, index: RaftIndexDto, change_member: bool, last_applied_log: u64
+    returns Option<Box<RaftIndexInnerManager>>
+@@ RaftIndexManager::write_last_applied_log chain 1 spec
+    requires inner is Some ==> inner.unwrap().file.contents().len() >= 8
+    ensures r is Some == inner is Some,
+        inner is Some ==> applied_written(*inner.unwrap(), *r.unwrap(), last_applied_log),
+@@ RaftIndexManager::write_last_applied_log spec
+    requires old(self).inner is Some ==> old(self).inner.unwrap().file.contents().len() >= 8
+    ensures
+        old(self).inner is None ==> r is Err && final(self).inner is None,
+        old(self).inner is Some ==> r is Ok && final(self).inner is Some && applied_written(*old(self).inner.unwrap(), *final(self).inner.unwrap(), last_applied_log),
+@@ RaftIndexManager::load_index_info spec
+    ensures self.inner is Some ==> (r matches Ok(RaftIndexResponse::RaftIndexInfo { raft_index, last_applied_log })
+            && raft_index == self.inner.unwrap().raft_index && last_applied_log == self.inner.unwrap().last_applied_log),
+        self.inner is None ==> r is Err,
+@@ RaftIndexManager::handle@Handler<RaftIndexRequest> t20_calls write_index write_last_applied_log write_logs write_snapshots write_member add_node_addr write_hard_state
+@@ RaftIndexManager::handle@Handler<RaftIndexRequest> subst
+    Self::Context => Context<Self>
+@@ RaftIndexManager::handle@Handler<RaftIndexRequest> spec
+    requires records_fit(), old(self).inner is Some ==> old(self).inner.unwrap().file.contents().len() >= 8
+    // C05 (message level, A-WAIT): every save message ends — before the next message is taken — with the file holding the saved value
+    // (no I/O fault), and touches nothing but what it names; a query answers from what was saved last
+    ensures
+        old(self).inner is Some ==> final(self).inner is Some && ({
+            let o = old(self).inner.unwrap();
+            let n = final(self).inner.unwrap();
+            match msg {
+                RaftIndexRequest::SaveHardState { current_term, voted_for } => r is Ok && saved(o, n)
+                    && n.raft_index == (RaftIndexDto { current_term: current_term, voted_for: voted_for, ..o.raft_index }),
+                RaftIndexRequest::SaveLogs(logs) => r is Ok && saved(o, n) && n.raft_index == (RaftIndexDto { logs: logs, ..o.raft_index }),
+                RaftIndexRequest::SaveSnapshots(snapshots) => r is Ok && saved(o, n) && n.raft_index == (RaftIndexDto { snapshots: snapshots, ..o.raft_index }),
+                RaftIndexRequest::SaveLastAppliedLog(la) => r is Ok && applied_written(*o, *n, la),
+                RaftIndexRequest::SaveMember { member, member_after_consensus, node_addr } => r is Ok && saved(o, n)
+                    && n.raft_index.member == member && n.raft_index.current_term == o.raft_index.current_term && n.raft_index.voted_for == o.raft_index.voted_for
+                    && n.raft_index.logs == o.raft_index.logs && n.raft_index.snapshots == o.raft_index.snapshots,
+                RaftIndexRequest::AddNodeAddr(id, node_addr) => r is Ok && saved(o, n)
+                    && n.raft_index.node_addrs@ == o.raft_index.node_addrs@.insert(id, node_addr)
+                    && n.raft_index.current_term == o.raft_index.current_term && n.raft_index.voted_for == o.raft_index.voted_for && n.raft_index.member == o.raft_index.member,
+                RaftIndexRequest::LoadIndexInfo => n == o && (r matches Ok(RaftIndexResponse::RaftIndexInfo { raft_index, last_applied_log })
+                    && raft_index == o.raft_index && last_applied_log == o.last_applied_log),
+                _ => n == o,
+            }
+        }),
